@@ -446,7 +446,7 @@ class Gen:
 
     def user_whitespace(self):
         r = self.r
-        style = r.choice([0, 1, 2, 3, 4, 4, 4])  # a Whitespace rule that can fail is the rarest in practice and the most fragile
+        style = r.choice([0, 1, 2, 3, 3, 3, 4, 4, 4])  # a Whitespace rule that can fail is the rarest in practice and the most fragile
         if style == 4:
             # a whitespace definition that can *fail* (tabs are forbidden / a marker ends the skippable region): the token that
             # asked for the skip then fails like any other non-match - optionals decline, closures stop, alternatives move on
